@@ -473,10 +473,10 @@ Proof.
         (conj rej_bad_hex (conj rej_lone_low rej_high_high)))))))))).
 Qed.
 Print Assumptions C03_rejected_examples.
-Theorem C03_rejected_too_deep : text_l strtod_ref (repeat 91 1001 ++ repeat 93 1001) false = None.
+Theorem C03_rejected_too_deep : text_l strtod_ref (repeat 91 (S nesting_limit) ++ repeat 93 (S nesting_limit)) false = None.
 Proof. exact rej_too_deep. Qed.
 Print Assumptions C03_rejected_too_deep.
-Theorem C03_accepted_at_limit : exists t, text_l strtod_ref (repeat 91 1000 ++ repeat 93 1000) false = Some (t, []).
+Theorem C03_accepted_at_limit : exists t, text_l strtod_ref (repeat 91 nesting_limit ++ repeat 93 nesting_limit) false = Some (t, []).
 Proof. exact acc_at_limit. Qed.
 Print Assumptions C03_accepted_at_limit.
 
